@@ -17,6 +17,7 @@ import (
 	"pgregory.net/rapid"
 
 	ipfslog "berty.tech/go-ipfs-log"
+	"berty.tech/go-ipfs-log/iface"
 
 	"verifharness/coop"
 	"verifharness/ev"
@@ -25,7 +26,7 @@ import (
 )
 
 type xop struct {
-	Kind string `json:"k"` // join | append
+	Kind string `json:"k"` // join | append | stream (Dst merges from Src once per entry it receives from an iterator over Src that runs on a goroutine of its own and sends on an unbuffered channel; the cooperative engine runs it as one merge)
 	Dst  int    `json:"dst"`
 	Src  int    `json:"src,omitempty"`
 	Size *int   `json:"size,omitempty"` // join: size bound (nil: unbounded)
@@ -60,8 +61,8 @@ func genC14(t *rapid.T) c14Prog {
 		k := rapid.IntRange(1, 3).Draw(t, "nops")
 		var ops []xop
 		for j := 0; j < k; j++ {
-			o := xop{Kind: rapid.SampledFrom([]string{"join", "join", "append"}).Draw(t, "kind"), Dst: rapid.IntRange(0, n-1).Draw(t, "dst")}
-			if o.Kind == "join" {
+			o := xop{Kind: rapid.SampledFrom([]string{"join", "join", "append", "join", "join", "append", "stream"}).Draw(t, "kind"), Dst: rapid.IntRange(0, n-1).Draw(t, "dst")}
+			if o.Kind == "join" || o.Kind == "stream" {
 				o.Src = rapid.IntRange(0, n-1).Draw(t, "src")
 				if o.Src == o.Dst {
 					o.Src = (o.Dst + 1) % n
@@ -337,7 +338,7 @@ func runMultiLogImpl(tb ev.TB, p c14Prog, prop string) ev.Result {
 						continue
 					}
 					w.Reg.Record(e)
-				case "join":
+				case "join", "stream":
 					si := op.Src % n
 					if si == op.Dst%n {
 						si = (si + 1) % n
@@ -499,7 +500,7 @@ func TestC03Multi(t *testing.T) {
 
 func TestC14Coop(t *testing.T) {
 	c := ev.Get("C14")
-	c.Rule = "generated concurrent programs over 2-3 logs built by a generated setup history (in a few percent of the cases each log additionally starts as a replica of one long history of 1030-1290 entries): 2-4 logical threads each run 1-3 operations from {X.Join(Y), X.Append} with generated X, Y (one program in eight also makes size-bounded merges X.Join(Y, n): for those programs: deadlock freedom, no panic, 'every head is an entry', and for their unbounded merges the union clause in the form of the merge's own candidate rule, since logs are windows then); one program in six lets some or all of the logs refuse whatever they are offered (denying access controller): merges into them fail or find nothing, appends fail, and a refused unbounded merge must leave entries and heads as they were - the error paths run under the same locks (so merges from a log that is concurrently appended to, merged into, or merging back). Engine E1 (cooperative scheduler): every lock request/release of every log and the points join.locked / join.afterValidate / join.beforeHeads are scheduling points, the interleaving is a generated choice list, deadlock is detected exactly. At every write-unlock of a log its state (read without locks) must have heads ⊆ entries, be causally closed and have heads == unreferenced; for a Join the result must equal (destination at lock time) ∪ S for some state S the source log had between the call and the return (states recorded at every write-unlock). Engine E2 (TestC14Free, -race): the same programs on free goroutines with a 20 s watchdog whose expiry is a violation only if the goroutine dump shows the log locks held. Non-trivial = the source was mutated by another thread while a merge from it was in flight, or two merges in opposite directions overlapped; distinct = distinct program."
+	c.Rule = "generated concurrent programs over 2-3 logs built by a generated setup history (in a few percent of the cases each log additionally starts as a replica of one long history of 1030-1290 entries): 2-4 logical threads each run 1-3 operations from {X.Join(Y), X.Append} with generated X, Y (one program in eight also makes size-bounded merges X.Join(Y, n): for those programs: deadlock freedom, no panic, 'every head is an entry', and for their unbounded merges the union clause in the form of the merge's own candidate rule, since logs are windows then); one program in six lets some or all of the logs refuse whatever they are offered (denying access controller): merges into them fail or find nothing, appends fail, and a refused unbounded merge must leave entries and heads as they were - the error paths run under the same locks (so merges from a log that is concurrently appended to, merged into, or merging back). Engine E1 (cooperative scheduler): every lock request/release of every log and the points join.locked / join.afterValidate / join.beforeHeads are scheduling points, the interleaving is a generated choice list, deadlock is detected exactly. At every write-unlock of a log its state (read without locks) must have heads ⊆ entries, be causally closed and have heads == unreferenced; for a Join the result must equal (destination at lock time) ∪ S for some state S the source log had between the call and the return (states recorded at every write-unlock). Engine E2 (TestC14Free, -race): the same programs on free goroutines - here a 'stream' operation makes X merge from Y once per entry X receives from an iterator over Y that runs on its own goroutine and sends on an unbuffered channel (E1 runs it as one merge) - with a 20 s watchdog whose expiry is a violation only if the goroutine dump shows the log locks held. Non-trivial = the source was mutated by another thread while a merge from it was in flight, or two merges in opposite directions overlapped; distinct = distinct program."
 	c.Assumptions = []string{"interleavings are explored at hook granularity", "E2's deadlock verdict needs the goroutine dump to show goroutines parked on the logs' RWMutex"}
 	ev.Check(t, "C14", genC14, runC14Coop)
 }
@@ -515,6 +516,7 @@ func runC14Free(tb ev.TB, p c14Prog) ev.Result {
 		rep = ev.EnvInt("VERIF_REPLAY_REPS", 40)
 	}
 	var running, overlap int32
+	var streamed atomic.Bool
 	for r := 0; r < rep; r++ {
 		w := sim.Run(tb, &p.Setup, nil)
 		n := len(w.Reps)
@@ -552,6 +554,23 @@ func runC14Free(tb ev.TB, p c14Prog) ev.Result {
 					si := op.Src % n
 					if si == op.Dst%n {
 						si = (si + 1) % n
+					}
+					if op.Kind == "stream" {
+						// a consumer that merges from the log it is being streamed: the iterator runs on its own
+						// goroutine and hands over one entry at a time
+						src := w.Reps[si].Log
+						ch := make(chan iface.IPFSLogEntry)
+						go func() { _ = src.Iterator(&ipfslog.IteratorOptions{}, ch) }()
+						for range ch {
+							if _, err := d.Join(src, -1); err != nil && !p.denies(op.Dst%n) {
+								mu.Lock()
+								errs = append(errs, fmt.Sprintf("join failed: %v", err))
+								mu.Unlock()
+							}
+						}
+						atomic.AddInt32(&running, -1)
+						streamed.Store(true)
+						continue
 					}
 					_, err := d.Join(w.Reps[si].Log, sizeOf(op))
 					atomic.AddInt32(&running, -1)
@@ -592,6 +611,9 @@ func runC14Free(tb ev.TB, p c14Prog) ev.Result {
 	}
 	if atomic.LoadInt32(&overlap) == 1 {
 		cl = append(cl, "operations-overlapped")
+	}
+	if streamed.Load() {
+		cl = append(cl, "merges-from-a-log-while-it-is-streamed")
 	}
 	return ev.Result{NonTrivial: atomic.LoadInt32(&overlap) == 1, Classes: cl}
 }
